@@ -159,6 +159,9 @@ func (r *FileReader) SkipNext() error {
 
 		// here we have to add the header to the offset too, otherwise we will seek not far enough
 		expectedOffset := int64(r.currentOffset + expectedBytesSkipped + (r.reader.Count() - start))
+		if err := r.checkSkipTarget(expectedOffset); err != nil {
+			return err
+		}
 		newOffset, err := r.file.Seek(expectedOffset, 0)
 		if err != nil {
 			return fmt.Errorf("error while seeking to offset %d in '%s': %w", expectedOffset, r.file.Name(), err)
@@ -201,6 +204,9 @@ func SkipNextV1(r *FileReader) error {
 	}
 
 	expectedOffset := int64(r.currentOffset + expectedBytesSkipped)
+	if err := r.checkSkipTarget(expectedOffset); err != nil {
+		return err
+	}
 	newOffset, err := r.file.Seek(expectedOffset, 0)
 	if err != nil {
 		return fmt.Errorf("error while seeking to offset %d in '%s': %w", expectedOffset, r.file.Name(), err)
@@ -231,6 +237,9 @@ func SkipNextV2(r *FileReader) error {
 
 	// here we have to add the header to the offset too, otherwise we will seek not far enough
 	expectedOffset := int64(r.currentOffset + expectedBytesSkipped + (r.reader.Count() - start))
+	if err := r.checkSkipTarget(expectedOffset); err != nil {
+		return err
+	}
 	newOffset, err := r.file.Seek(expectedOffset, 0)
 	if err != nil {
 		return fmt.Errorf("error while seeking to offset %d in '%s': %w", expectedOffset, r.file.Name(), err)
@@ -263,6 +272,9 @@ func SkipNextV3(r *FileReader) error {
 
 	// here we have to add the header to the offset too, otherwise we will seek not far enough
 	expectedOffset := int64(r.currentOffset + expectedBytesSkipped + (r.reader.Count() - start))
+	if err := r.checkSkipTarget(expectedOffset); err != nil {
+		return err
+	}
 	newOffset, err := r.file.Seek(expectedOffset, 0)
 	if err != nil {
 		return fmt.Errorf("error while seeking to offset %d in '%s': %w", expectedOffset, r.file.Name(), err)
@@ -274,6 +286,22 @@ func SkipNextV3(r *FileReader) error {
 
 	r.reader.Reset(r.file)
 	r.currentOffset = uint64(newOffset)
+	return nil
+}
+
+// checkSkipTarget fails when the record to skip is not completely contained in the file. Seeking behind the end of a
+// file succeeds, so without this a record whose payload was cut off would be skipped as if it was there.
+func (r *FileReader) checkSkipTarget(expectedOffset int64) error {
+	stat, err := r.file.Stat()
+	if err != nil {
+		return fmt.Errorf("error while determining the size of '%s': %w", r.file.Name(), err)
+	}
+
+	if expectedOffset < 0 || expectedOffset > stat.Size() {
+		return fmt.Errorf("record to skip in '%s' ends at offset %d, but the file only has %d bytes: %w",
+			r.file.Name(), expectedOffset, stat.Size(), io.ErrUnexpectedEOF)
+	}
+
 	return nil
 }
 
